@@ -396,11 +396,15 @@ pub fn generate_stringbuf(run_seed: u64, thorough: bool) -> ConcDesc {
         let k = 2 + r.below(if thorough { 4 } else { 3 }) as usize;
         let mut ops = Vec::new();
         for _ in 0..k {
-            if r.chance(1, 2) {
-                tok += 1;
-                ops.push((true, tok));
-            } else {
-                ops.push((false, 0));
+            match r.weighted(&[45, 35, 10, 10]) {
+                0 => {
+                    tok += 1;
+                    ops.push((true, tok));
+                }
+                1 => ops.push((false, 0)),
+                // (false, 1) = `SB == SB2`, (false, 2) = `SB2 == SB` (SB2 stays empty)
+                2 => ops.push((false, 1)),
+                _ => ops.push((false, 2)),
             }
         }
         sb_ops.push(ops);
@@ -672,10 +676,11 @@ pub fn execute(d: &ConcDesc, keep_trace: bool) -> RunResult {
         let mut keep: Option<(Sendable<Runtime<NoCtx>>, Sendable<Package<NoCtx>>)> = None;
         let mut fpush = None;
         let mut fread = None;
+        let mut feq: Option<(Arc<Sendable<TypedFunc<NoCtx, fn() -> bool>>>, Arc<Sendable<TypedFunc<NoCtx, fn() -> bool>>>)> = None;
         {
             let _rg = alloc::ModeGuard::new(alloc::MODE_RUN);
             let rt = Runtime::new();
-            let src = "const SB: StringBuf = StringBuf.new();\nfn sb_push(t: String) { SB.push_string(t); }\nfn sb_read() -> String { SB.as_string() }\n";
+            let src = "const SB: StringBuf = StringBuf.new();\nconst SB2: StringBuf = StringBuf.new();\nfn sb_push(t: String) { SB.push_string(t); }\nfn sb_read() -> String { SB.as_string() }\nfn sb_eq_ab() -> bool { SB == SB2 }\nfn sb_eq_ba() -> bool { SB2 == SB }\n";
             let pkg = {
                 let _cg = alloc::ModeGuard::new(alloc::MODE_COMPILE);
                 FileTree::test_file("sb", src, 0).compile(&rt)
@@ -686,6 +691,10 @@ pub fn execute(d: &ConcDesc, keep_trace: bool) -> RunResult {
                         (Ok(a), Ok(b)) => {
                             fpush = Some(Arc::new(Sendable(a)));
                             fread = Some(Arc::new(Sendable(b)));
+                            match (pkg.get_function::<fn() -> bool>("sb_eq_ab"), pkg.get_function::<fn() -> bool>("sb_eq_ba")) {
+                                (Ok(x), Ok(y)) => feq = Some((Arc::new(Sendable(x)), Arc::new(Sendable(y)))),
+                                _ => viol::record("get-function-failed", "stringbuf equality helpers"),
+                            }
                         }
                         (a, b) => viol::record("get-function-failed", format!("stringbuf helpers: {:?} {:?}", a.err().map(|e| e.to_string()), b.err().map(|e| e.to_string()))),
                     }
@@ -695,24 +704,28 @@ pub fn execute(d: &ConcDesc, keep_trace: bool) -> RunResult {
             }
         }
         let hist: Arc<Mutex<Vec<Event>>> = Arc::new(Mutex::new(Vec::new()));
-        if let (Some(fpush), Some(fread)) = (fpush.clone(), fread.clone()) {
+        if let (Some(fpush), Some(fread), Some(feq)) = (fpush.clone(), fread.clone(), feq.clone()) {
             let bodies: Vec<sched::Body> = d
                 .sb_ops
                 .iter()
                 .enumerate()
                 .map(|(t, ops)| {
                     let ops = ops.clone();
-                    let (fpush, fread, hist) = (fpush.clone(), fread.clone(), hist.clone());
+                    let (fpush, fread, feq, hist) = (fpush.clone(), fread.clone(), feq.clone(), hist.clone());
                     Box::new(move || {
                         for (push, tok) in &ops {
                             {
                                 let _pg = alloc::ModeGuard::new(alloc::MODE_PLAIN);
-                                sched::set_label(if *push { "stringbuf push_string" } else { "stringbuf as_string" });
+                                sched::set_label(if *push { "stringbuf push_string" } else if *tok == 0 { "stringbuf as_string" } else { "stringbuf ==" });
                             }
                             let inv = sched::stamp();
                             let (op, obs) = if *push {
                                 fpush.call(RotoString::from(format!("t{tok};")));
                                 (LOp::Push { l: 0, v: MVal::Str(format!("t{tok}")) }, Obs::Unit)
+                            } else if *tok == 1 || *tok == 2 {
+                                // SB2 is never appended to: the comparison is true exactly when SB is empty
+                                let r = if *tok == 1 { feq.0.call() } else { feq.1.call() };
+                                (LOp::IsEmpty { l: 0 }, Obs::Bool(r))
                             } else {
                                 let r = fread.call();
                                 let s: &str = r.as_ref();
@@ -748,6 +761,7 @@ pub fn execute(d: &ConcDesc, keep_trace: bool) -> RunResult {
             let _rg = alloc::ModeGuard::new(alloc::MODE_RUN);
             drop(fpush);
             drop(fread);
+            drop(feq);
             drop(keep);
         }
         n_calls = d.sb_ops.iter().map(|o| o.len() as u64).sum();
